@@ -65,6 +65,15 @@ def lake_build(targets):
     return rc == 0 and not sorry, errs + sorry, out
 
 
+def leanchecker(modules):
+    """Independent re-check of the compiled .olean files of the given modules (and what they import) by the
+    toolchain's `leanchecker` (replays every declaration through the kernel).  Returns (ok, detail)."""
+    rc, out = run(["lake", "env", "leanchecker"] + list(modules), cwd=LEAN_DIR, timeout=3000)
+    if rc != 0:
+        return False, "leanchecker failed: " + out.strip()[-400:]
+    return True, "leanchecker ok"
+
+
 def audit_axioms(modules, theorems):
     """`#print axioms` for every theorem. Returns (ok, {theorem: [axioms]}, problems)."""
     os.makedirs(WORK_DIR, exist_ok=True)
